@@ -254,7 +254,14 @@ func RunFaultCase(rt *rapid.T, env *Env, prop *SimProp, faults func(w *World) []
 	// answer's hand-over can land between the queued disposal and its execution
 	for _, fault := range fs {
 		for k := 0; k < len(base); k++ {
-			if base[k].K != "ans" || len(fault) != 1 {
+			// (answers, and the service events whose handling walks the connections
+			// or the cache while the disposal does the same)
+			switch base[k].K {
+			case "ans", "tokreset", "sysreset", "token", "reaccess", "mut", "custom", "delete", "qevent":
+			default:
+				continue
+			}
+			if len(fault) != 1 {
 				continue
 			}
 			script := append([]Op(nil), base[:k]...)
